@@ -11,7 +11,8 @@ CONFIG = dict(
                "build_local_cap / peer_role / PeerCodec::negotiate / the effective send-max / negotiate_gr / negotiate_llgr / "
                "IpNet::contains / force_down / the end of PeerSession::run and the gRPC enable-disable-delete-shutdown-reset "
                "handlers: the accept decision (accept_iff), prefix containment = first mask bits (contains_iff_cover), "
-               "configured-or-inherited parameters incl. advertised capabilities (params_inherited[_dynamic]), role derivation, "
+               "configured-or-inherited parameters incl. advertised capabilities (params_inherited[_dynamic]), which dynamic prefixes and which "
+               "AddPeer requests are admitted at all (loaded_prefixes_valid, api_request_refused_iff, api_request_reading), role derivation, "
                "mirror-image negotiation and feature-iff-both, send-max = codec add-path tx (S26), GR/LLGR symmetry, and the "
                "dynamic-neighbour GC invariant over ALL histories; plus the master theorem that the C16 reference checker "
                "(written from the property text) accepts every model run except the recorded open finding F16c (three clauses, only in histories with a tear-down).  The model is "
@@ -32,6 +33,10 @@ CONFIG = dict(
     lean_modules=["Rbgp.Accept.Props"],
     theorems=[
         "Rbgp.Accept.Props.check_run_ok",
+        "Rbgp.Accept.Props.loaded_prefixes_valid",
+        "Rbgp.Accept.Props.first_prefix_admitted_iff",
+        "Rbgp.Accept.Props.api_request_refused_iff",
+        "Rbgp.Accept.Props.api_request_reading",
         "Rbgp.Accept.Props.check_run_ok_without_teardown",
         "Rbgp.Accept.Props.wfCase_sound",
         "Rbgp.Accept.Props.accept_iff",
@@ -59,7 +64,15 @@ CONFIG = dict(
     profiles=["debug"],
     n_quick=3000, n_thorough=120000, shards=12,
     nontrivial_re=r"\(accept |\(reject |t\)\)|\(ok t\)|\(gr \(|\(llgr \(|\(panic\)",
-    rule="four streams from one PRNG: (1) pairs of capability lists over a 2-family universe (+ an IPv4-VPN and an unknown "
+    rule="a seed-independent BOUNDARY SUITE first (part of every run; ~690 cases: every prefix length at 0/1/7/8/9/len-9..len+1 with the "
+         "address differing in the last covered / first uncovered bit; all 16 add-path mode pairs, ext-nexthop / GR / LLGR / 4-octet-AS / send-max "
+         "edge values; one neighbour per boundary of hold time (0,3,65535), AS numbers (65535, 65536, AS_TRANS, 4-octet, equal in low/high 16 bits), "
+         "local-AS override, confederation membership, cluster id 0 / max, GR time 0 / 4095, LLGR time 0 / 1 / max, prefix limits 0 / max, "
+         "IPv6 neighbours with every kind of family set incl. SR Policy, every fallback of apply_peer_group taken and not taken, addresses at the "
+         "edges of dynamic prefixes, every role static and dynamic, API operations with 0/1/2 connections, AddPeer requests with hold_time "
+         "0,1,2,3,65535,65536 and send-max 0,255,256, prefixes of length len+1 / 255 and repeated prefixes); the buckets it reaches are listed in "
+         "checks/c16_buckets.txt and counted per run by the driver mode `stats` (evidence: oracle_clause_counts, gaps: coverage_gaps).  "
+         "Then four random streams from one PRNG: (1) pairs of capability lists over a 2-family universe (+ an IPv4-VPN and an unknown "
          "family): MP, add-path tuples with modes 0-3 and invalid 4/5/7/255, duplicates and conflicting tuples, add-path "
          "without MP, ext-nexthop tuples with right/wrong AFIs, ext-message, 4-octet AS, GR (any flags/time, duplicate "
          "families), LLGR (zero / non-zero times, duplicate families, several capabilities), unknown capabilities, with a "
@@ -86,9 +99,11 @@ CONFIG = dict(
                   "apply_disconnect + tail of PeerSession::run, negotiate_gr/llgr, peer_role), event/peer.rs (build, "
                   "build_local_cap, apply_peer_group), event/grpc.rs (five handlers), fsm.rs (effective send-max), "
                   "packet/src/bgp.rs (PeerCodec::negotiate, IpNet::contains)",
-                  "harness/daemon/c16.rs: builds PeerParams/PeerGroup/Global from the case (neighbours with prefix limits, GR/LLGR, hold 0 or "
-                  "an add-path mode that disagrees with send-max are not expressible as an API Peer and go through "
-                  "apply_peer_group + Global::add_peer directly; the YAML configuration loader is not driven), binds loopback sources, runs the "
+                  "harness/daemon/c16.rs: builds PeerParams/PeerGroup/Global from the case: every dynamic prefix goes through the real "
+                  "AddDynamicNeighbor handler (IpNet::from_str, duplicate refusal; the answers are observed), a neighbour marked `api` through "
+                  "the real AddPeer handler (PeerParams::try_from with its validation, apply_peer_group, add_peer; hold_time and send_max verbatim), "
+                  "a neighbour marked `cfg` through apply_peer_group + Global::add_peer on the parameters (the sequence of the YAML loader, which "
+                  "itself is not driven; GR / LLGR / prefix limits are only given this way); binds loopback sources, runs the "
                   "real session task with the remote end closing after the first message; capability lists are compared "
                   "after sorting their hash-ordered parts; what the encoder does with extended next hop for IPv4 unicast is read through the encoder",
                   "the drivers run model and oracle only on cases passing the decidable guard Codec.wfCase, which implies "
@@ -98,9 +113,17 @@ CONFIG = dict(
                            "one of the covering groups' is checked, then the history is abandoned)",
                            "tokio scheduling: the session task is not started at accept time but run to completion inside the "
                            "`disc` step, so a history is a sequence of atomic steps",
-                           "enable_active_connect (spawned retry loop; its connects are refused) and BFD / RTC / GR timers"],
+                           "enable_active_connect (spawned retry loop; its connects are refused) and BFD / RTC / GR timers",
+                           "branches of the anchored handlers that no case reaches (measured with per-branch counters in a scratch "
+                           "worktree, 147 of 184 branch points of the anchored functions reached): soft reset (ResetPeer soft=true), the "
+                           "GR / LLGR blocks of an AddPeer request, MD5 password / BFD / unnumbered-interface arms of AddPeer and "
+                           "DeletePeer, textually malformed prefixes (no slash, bad address) in AddDynamicNeighbor",
+                           "the restarting-speaker switch (Global.selection_deferral set: accept_connection hands is_restarting to the "
+                           "session, PeerFsm::on_connected then sets the R bit in the advertised GR capability, the tail of run "
+                           "notifies the deferral): histories run with the switch off; SessInfo.restarting is observed to be false"],
     assumptions=["histories use well-formed configurations (CaseWF, enforced by the run-time guard wfCase): octets < 256, "
-                 "dynamic-prefix masks within the address length (what IpNet::from_str admits), confederation identifier != 0",
+                 "confederation identifier != 0 (dynamic-prefix lengths are no longer assumed: any length 0..255 may be configured, "
+                 "the model and the real AddDynamicNeighbor handler decide what is admitted, theorem loaded_prefixes_valid)",
                  "loopback: 127.0.0.0/8 and ::1 are bindable source addresses on the test host"],
 )
 
@@ -323,12 +346,15 @@ def gen_group(r, name):
     """returns (text, [(prefix octets, mask)], expected AS)"""
     pool = NETS if r.chance(1, 7) else NET_POOLS.get(name, NETS)
     nets = [r.pick(pool) for _ in range(r.pick([0, 1, 1, 2, 3]))]
+    if nets and r.chance(1, 6):
+        n0, m0 = r.pick(nets)
+        nets.insert(r.below(len(nets) + 1), (n0, r.pick([8 * len(n0) + 1, 8 * len(n0) + 1, 8 * len(n0) + 8, 255, m0])))
     asn = r.pick([0, 65001, 65002, 65003, 65009, 65001, 65002] + AS_EDGE)
     text = "(group %s %d %d %s %s %s %s %s %s %s %s %s (nets %s))" % (
         name, asn, r.pick([0, 0, 0, 0, 65010, 65001, 65002, BIG_AS]), opt_num(r, [0, 30, 90, 3, 180, 65535]), b(r), b(r), b(r),
         opt_num(r, CLUSTERS, 3), gen_fams(r), gen_sm(r, [IPV4, IPV6, VPN4]), gen_gr(r), gen_llgr(r),
         " ".join("(net %s %d)" % (hexb(n), m) for n, m in nets))
-    return text, nets, asn
+    return text, [(n, m) for n, m in nets if m <= 8 * len(n)], asn
 
 
 def gen_pol(r):
@@ -343,13 +369,29 @@ def gen_peer(r, addr, groups):
     exp = r.pick([0, 0, 65001, 65002, 65003, 65009, 65000, 65001, 65002, 65010] + AS_EDGE)
     down = b(r, 1, 5)
     pol = gen_pol(r)
-    text = "(peer %s %d %d %d %s %s %s %s %s %s %s (pl %s) %s %s %s %s)" % (
+    gtext = "none" if grp is None else "(some %s)" % grp
+    if r.chance(1, 3):
+        # through the AddPeer request: what a request can say, with hold_time / send_max at the edges of what it accepts
+        fams = {}
+        for _ in range(r.pick([0, 0, 1, 2, 2, 3])):
+            fams[r.pick(PEER_FAMS)] = r.pick([0, 1])
+        sm = {f: r.pick([0, 1, 2, 255, 255, 256, 4, 1000]) for f in fams if r.chance(1, 2)}
+        flist = [(f, rx | (2 if sm.get(f, 0) > 0 else 0)) for f, rx in fams.items()]
+        if flist and r.chance(1, 6):
+            flist.append((flist[0][0], flist[0][1] ^ 1))     # the family twice (same send bit, other receive bit)
+        hold = r.pick([0, 0, 180, 1, 2, 3, 4, 90, 65535, 65535, 65536, 4294967295])
+        text = "(peer %s %d %d %d %s %s %s %s %s (fams %s) (sm %s) (pl ) none none %s %s api)" % (
+            ip(addr), exp, r.pick([0, 0, 0, 0, 65001, 65002, 65010, BIG_AS, 65536]), hold,
+            b(r), b(r, 1, 6), b(r), opt_num(r, CLUSTERS, 3), down, pairs(flist), pairs(sorted(sm.items())), pol, gtext)
+        ok = ("px" not in pol) and not (exp == 0 and grp is None) and all(v <= 255 for v in sm.values()) \
+            and (hold == 0 or 3 <= hold <= 65535)
+        return dict(exp=exp, down=(down == "t"), ok=ok), text
+    text = "(peer %s %d %d %d %s %s %s %s %s %s %s (pl %s) %s %s %s %s cfg)" % (
         ip(addr), exp, r.pick([0, 0, 0, 0, 65001, 65002, 65010, BIG_AS, 65536]),
         r.pick(HOLDS), b(r), b(r, 1, 6), b(r), opt_num(r, CLUSTERS, 3), down,
         gen_fams(r), gen_sm(r, [IPV4, IPV6, VPN4]),
         pairs([(r.pick(FAMS2 + [VPN4]), r.pick([0, 1, 10, 1000, 4294967295])) for _ in range(r.pick([0, 0, 1, 2]))]),
-        gen_gr(r), gen_llgr(r), pol,
-        "none" if grp is None else "(some %s)" % grp)
+        gen_gr(r), gen_llgr(r), pol, gtext)
     return dict(exp=exp, down=(down == "t"), ok=("px" not in pol)), text
 
 
@@ -573,9 +615,9 @@ V4A, V4B, V6A = [127, 0, 0, 5], [127, 0, 2, 9], [0] * 15 + [1]
 
 
 def speer(addr=V4A, exp=65002, lasn=0, hold=180, passive="f", rs="f", rr="f", cluster="none", down="f",
-          fams="", sm="", pl="", gr="none", llgr="none", pol="none", group="none"):
-    return "(peer %s %d %d %d %s %s %s %s %s (fams %s) (sm %s) (pl %s) %s %s %s %s)" % (
-        ip(addr), exp, lasn, hold, passive, rs, rr, cluster, down, fams, sm, pl, gr, llgr, pol, group)
+          fams="", sm="", pl="", gr="none", llgr="none", pol="none", group="none", via="cfg"):
+    return "(peer %s %d %d %d %s %s %s %s %s (fams %s) (sm %s) (pl %s) %s %s %s %s %s)" % (
+        ip(addr), exp, lasn, hold, passive, rs, rr, cluster, down, fams, sm, pl, gr, llgr, pol, group, via)
 
 
 def sgroup(name="g1", asn=65002, lasn=0, hold="none", passive="f", rs="f", rr="f", cluster="none",
@@ -636,6 +678,30 @@ def suite_hist():
     for pol in ("none", "(some (accept ()))", "(some (reject ()))", "(some (accept (p1)))", "(some (reject (p2 p1)))",
                 "(some (accept (p1 p1)))", "(some (accept (px)))", "(some (reject (p1 px)))"):
         out.append(shist([speer(pol=pol)], ops=est(V4A, 65002)))
+    # --- the AddPeer request: hold_time and send-max at the edges of what try_from accepts, AS / group present or not
+    for hold in (0, 1, 2, 3, 4, 180, 65534, 65535, 65536, 65537, 4294967295):
+        out.append(shist([speer(hold=hold, via="api")], ops=est(V4A, 65002)))
+        out.append(shist([speer(exp=0, hold=hold, group="(some g1)", via="api")], [sgroup(hold="(some 30)")], ops=est(V4A, 65002)))
+    for smv in (0, 1, 254, 255, 256, 257, 65536, 1048576):
+        out.append(shist([speer(fams="(65537 %d) (131073 1)" % (2 if smv else 0), sm="(65537 %d)" % smv, via="api")], ops=est(V4A, 65002)))
+        out.append(shist([speer(fams="(65537 %d) (131073 3)" % (3 if smv else 1), sm="(131073 4) (65537 %d)" % smv, via="api")], ops=est(V4A, 65002)))
+    for exp, grp, groups in ((0, "none", []), (0, "(some gx)", []), (0, "(some g1)", [sgroup(asn=0)]), (0, "(some g1)", [sgroup()]),
+                             (65002, "none", []), (65002, "(some gx)", []), (65003, "(some g1)", [sgroup()])):
+        out.append(shist([speer(exp=exp, group=grp, via="api")], groups, ops=est(V4A, 65002)))
+    gfull_api = dict(asn=65003, lasn=65010, passive="t", rs="t", rr="t", cluster="(some 0)", fams="(65537 3) (131073 1)", sm="(65537 255)")
+    out.append(shist([speer(exp=0, hold=0, group="(some g1)", via="api")], [sgroup(hold="(some 3)", **gfull_api)], ops=est(V4A, 65003)))
+    out.append(shist([speer(exp=65002, lasn=BIG_AS, hold=65535, passive="t", rs="t", rr="t", cluster="(some 4294967295)", down="t",
+                            fams="(65609 1) (131073 2) (65609 0)", sm="(131073 255)", pol="(some (reject (p2)))", group="(some g1)", via="api"),
+                      speer(V6A, exp=65002, fams="(65537 0) (65609 0)", pol="(some (accept (px)))", via="api"),
+                      speer(V6A, exp=BIG_AS, fams="(65537 0) (65609 0)", via="api"), speer(V6A, via="api")],
+                     [sgroup(hold="(some 3)", **gfull_api)], ops=est(V6A, BIG_AS) + ["(enable %s)" % ip(V4A)] + est(V4A, 65002, sid=1)))
+    # --- prefixes the daemon must not admit (longer than the address), the same prefix twice
+    for net, a in (((V4B, 32), V4B), ((V4B, 33), V4B), ((V4B, 40), V4B), ((V4B, 255), V4B), (([127, 0, 2, 0], 24), V4B),
+                   ((V6A, 128), V6A), ((V6A, 129), V6A), ((V6A, 136), V6A), ((V6A, 255), V6A), (([0] * 16, 127), V6A)):
+        out.append(shist([], [sgroup(nets=[net])], ops=est(a, 65002)))
+    out.append(shist([], [sgroup(nets=[(V4B, 33), (V4B, 32), (V4B, 32), (V4B, 31), (V4B, 33), (V4B, 31)])], ops=est(V4B, 65002)))
+    out.append(shist([], [sgroup("g1", nets=[(V4B, 32)]), sgroup("g2", asn=65003, nets=[(V4B, 33), (V6A, 129)])], ops=est(V4B, 65002) + est(V6A, 65003, sid=1)))
+    out.append(shist([], [sgroup("g1", nets=[(V4B, 32)]), sgroup("g1", asn=65003, nets=[(V4B, 33)])], ops=est(V4B, 65002)))
     # admin-down neighbour: refused in both directions, then enabled; disable with 0 / 1 / 2 connections
     out.append(shist([speer(down="t")], ops=["(connect %s P)" % ip(V4A), "(connect %s A)" % ip(V4A), "(enable %s)" % ip(V4A)] + est(V4A, 65002)))
     for op in ("enable", "disable", "delete", "shutdown", "reset"):
